@@ -703,6 +703,50 @@ fn pool_checks(threads: usize, ids: &[u16], other: &[u16], hb: u8) -> Result<u64
         if !d.is_empty() {
             return Err(ctx("par_drain with a short-circuiting consumer left elements behind"));
         }
+        // a consumer that panics part-way: the collection must still be empty and usable afterwards,
+        // and every element dropped exactly once (checked by the registry at the end)
+        if ids.len() >= 2 {
+            let mut pm = gmap(ids, hb);
+            let victim = ids[ids.len() / 2];
+            let r = std::panic::catch_unwind(std::panic::AssertUnwindSafe(|| {
+                pm.par_drain().for_each(|(k, _)| {
+                    if k.id == victim {
+                        panic!("consumer panic");
+                    }
+                });
+            }));
+            if r.is_ok() {
+                return Err(ctx("par_drain: the consumer's panic was swallowed"));
+            }
+            if !pm.is_empty() || pm.iter().count() != 0 {
+                return Err(format!("{}: after a panicking consumer the map still reports {} elements", ctx("par_drain"), pm.len()));
+            }
+            pm.insert(GEl::new(1), GEl::new(2));
+            if pm.len() != 1 {
+                return Err(ctx("par_drain: map unusable after a panicking consumer"));
+            }
+            let mut ps = gset(ids, hb);
+            let r = std::panic::catch_unwind(std::panic::AssertUnwindSafe(|| {
+                ps.par_drain().for_each(|k| {
+                    if k.id == victim {
+                        panic!("consumer panic");
+                    }
+                });
+            }));
+            if r.is_ok() || !ps.is_empty() {
+                return Err(format!("{}: after a panicking consumer the set still reports {} elements", ctx("set par_drain"), ps.len()));
+            }
+            let r = std::panic::catch_unwind(std::panic::AssertUnwindSafe(|| {
+                gmap(ids, hb).into_par_iter().for_each(|(k, _)| {
+                    if k.id == victim {
+                        panic!("consumer panic");
+                    }
+                });
+            }));
+            if r.is_ok() {
+                return Err(ctx("into_par_iter: the consumer's panic was swallowed"));
+            }
+        }
         let got = sorted_u16(gmap(ids, hb).into_par_iter().map(|(k, _)| k.id).collect());
         if got != want {
             return Err(format!("{}: delivered {:?}", ctx("into_par_iter"), got));
